@@ -56,9 +56,12 @@ package capnp
 // checked against this contract, including its precondition.
 //@ func resolveHook -> r
 //@   props C10
-//@   trusted
+//@   locktypestate
+//@   partial lock post
 //@   requires h != nil && held(&h.mu)
 //@   requires onlyhook: forallHook(func(t *clientHook) bool { return implies(held(&t.mu), t == h) })
 //@   old h0 *clientHook = h
 //@   modifies g:held clientHook.resolvedHook
+//@   loop 0 "for"
+//@     invariant h != nil && lockswap(&h0.mu, &h.mu)
 //@   ensures swapped: (r == nil && lockdrop(&h0.mu)) || (r != nil && lockswap(&h0.mu, &r.mu))
